@@ -311,7 +311,7 @@ def main():
         ck.absorb(eng3)
     secs = time.time() - t0
     ck.bounds.append('assembly kernels X1/X2/X4/X8/X16 with all round keys and all input blocks symbolic (distinct blocks per lane), expandKeyAsm with a symbolic key; portable cryptoBlock/cryptoBlockX2/expandKey with symbolic blocks, keys and round keys; NewCipher for key lengths 0..40 and both dispatch outcomes')
-    ck.outside.append('arm64 kernels (no NEON semantics / host)')
+    ck.outside.append('arm64: the NEON semantics are those of engine/arm64sym.py (no arm64 host to validate them on hardware)')
     ck.assumptions.append('S-box applications are uninterpreted byte functions named by table content: the assembly\'s GFNI pipeline (pre-affine, field inversion, post-affine) is fused into one 256-entry table by the interpreter and matches the spec only if that table is the standard S-box (itself generated from the algebraic definition and validated against OpenSSL)')
 
     # ------------------------------------------------------------ replay on the real build: all paths against reference vectors
@@ -380,6 +380,18 @@ func TestVerifReplay(t *testing.T) {
                   sample=dict(kernel='cryptoBlockAsmX16', lane=7, claim='forall rk[0..31], block: out == SM4_rk(block)'))
         ck.record('portable', 'proved', 'tables == L(sbox<<k), ss/transTPrime == L(tau)/L\'(tau) for all bytes at each position, cryptoBlock/cryptoBlockX2/expandKey == standard structure (also with dst aliasing src)')
         ck.record('dispatch', 'proved', 'KeySizeError iff len(key) != 16 for 0..40; both dispatch outcomes give the standard permutation and its inverse; no reference into the key slice')
+    # ------------------------------------------------------------ arm64: Go glue (go/ssa GOARCH=arm64) + NEON leaf routines (arm64 listing)
+    import arm64lib
+    a64fails = {}
+    t_a64 = time.time()
+    try:
+        a64env = arm64lib.Env('c05')
+        n_a64 = arm64lib.c05(ck, a64env, lambda k, d, w=None: a64fails.setdefault(k, []).append((d, w)), thorough)
+    except (asmsym.AsmUnsupported, Unsupported, RuntimeError) as ex:
+        n_a64 = 0
+        a64fails.setdefault('a64:unsupported', []).append(('arm64 part not completed: %s' % ex, None))
+    if not arm64lib.report(ck, a64fails):
+        ck.record('arm64', 'proved', 'arm64 NEON kernels X1/X2/X4/X8/X16 (plain, in place, tmp=dst) and the NEON key schedule equal the GB/T 32907 specification for all round keys, keys and blocks (%d cases)' % n_a64, secs=time.time() - t_a64)
     ck.finish()
 
 
